@@ -183,7 +183,7 @@ struct Negative {
     expect_any: &'static [&'static str],
 }
 
-const NEG_PRELUDE: &str = "trait Tr1 {\n    fn m(Self, int32) -> int32;\n}\ntrait Tr2 {\n    fn m(Self, int32) -> int32;\n}\nstruct St { v: int32 }\nstruct Other { v: int32 }\nimpl Tr1 for St {\n    fn m(self: St, a: int32) -> int32 { a + self.v }\n}\nimpl Tr2 for St {\n    fn m(self: St, a: int32) -> int32 { a + self.v + 1 }\n}\nfn via_param(d: dyn Tr1, a: int32) -> int32 { Tr1::m(d, a) }\nfn ret_dyn(s: St) -> dyn Tr1 { let d: dyn Tr1 = s; d }\n";
+const NEG_PRELUDE: &str = "trait Tr1 {\n    fn m(Self, int32) -> int32;\n}\ntrait Tr2 {\n    fn m(Self, int32) -> int32;\n}\nstruct St { v: int32 }\nstruct Other { v: int32 }\nimpl Tr1 for St {\n    fn m(self: St, a: int32) -> int32 { a + self.v }\n}\nimpl Tr2 for St {\n    fn m(self: St, a: int32) -> int32 { a + self.v + 1 }\n}\nfn via_param(d: dyn Tr1, a: int32) -> int32 { Tr1::m(d, a) }\nfn ret_dyn(s: St) -> dyn Tr1 { let d: dyn Tr1 = s; d }\nstruct Gb[T] { v: T }\nimpl Tr1 for Gb[int32] {\n    fn m(self: Gb[int32], a: int32) -> int32 { a + self.v }\n}\nenum Ge[T] { Ga(T), Gn }\nimpl Tr1 for Ge[int32] {\n    fn m(self: Ge[int32], a: int32) -> int32 { a }\n}\n";
 
 const NEGATIVES: &[Negative] = &[
     Negative { name: "dyn-let-without-impl", src: "fn main() -> unit {\n    let o = Other { v: 1 };\n    let d: dyn Tr1 = o;\n    let _ = string_println(int32_to_string(Tr1::m(d, 1)));\n    ()\n}\n", expect_any: &["does not implement"] },
@@ -191,6 +191,15 @@ const NEGATIVES: &[Negative] = &[
     Negative { name: "dyn-param-without-impl", src: "fn main() -> unit {\n    let o = Other { v: 1 };\n    let _ = string_println(int32_to_string(via_param(o, 1)));\n    ()\n}\n", expect_any: &["does not implement"] },
     Negative { name: "dyn-param-primitive-without-impl", src: "fn main() -> unit {\n    let _ = string_println(int32_to_string(via_param(5, 1)));\n    ()\n}\n", expect_any: &["does not implement"] },
     Negative { name: "dyn-return-without-impl", src: "fn bad(o: Other) -> dyn Tr1 { o }\nfn main() -> unit {\n    let _ = string_println(int32_to_string(Tr1::m(bad(Other { v: 1 }), 1)));\n    ()\n}\n", expect_any: &["does not implement", "not equal", "No instance"] },
+    // the trait is implemented for ONE instance of a generic type; a value of another instance (its arguments written
+    // out, or only inferred from the literal) must not be coerced (added after a seeded change that matched an
+    // unresolved type argument against any impl instance)
+    Negative { name: "dyn-let-generic-other-instance-inferred", src: "fn main() -> unit {\n    let b = Gb { v: \"hello\" };\n    let d: dyn Tr1 = b;\n    let _ = string_println(int32_to_string(Tr1::m(d, 1)));\n    ()\n}\n", expect_any: &["does not implement", "Cannot convert", "No instance"] },
+    Negative { name: "dyn-let-generic-other-instance-annotated", src: "fn main() -> unit {\n    let b: Gb[string] = Gb { v: \"hello\" };\n    let d: dyn Tr1 = b;\n    let _ = string_println(int32_to_string(Tr1::m(d, 1)));\n    ()\n}\n", expect_any: &["does not implement", "Cannot convert", "No instance"] },
+    Negative { name: "dyn-param-generic-other-instance-inferred", src: "fn main() -> unit {\n    let b = Gb { v: true };\n    let _ = string_println(int32_to_string(via_param(b, 1)));\n    ()\n}\n", expect_any: &["does not implement", "Cannot convert", "No instance"] },
+    Negative { name: "dyn-param-generic-literal-other-instance", src: "fn main() -> unit {\n    let _ = string_println(int32_to_string(via_param(Gb { v: \"s\" }, 1)));\n    ()\n}\n", expect_any: &["does not implement", "Cannot convert", "No instance"] },
+    Negative { name: "dyn-let-generic-enum-other-instance-inferred", src: "fn main() -> unit {\n    let e = Ge::Ga(true);\n    let d: dyn Tr1 = e;\n    let _ = string_println(int32_to_string(Tr1::m(d, 1)));\n    ()\n}\n", expect_any: &["does not implement", "Cannot convert", "No instance"] },
+    Negative { name: "dyn-let-generic-enum-instance-fixed-later", src: "fn keep(x: Ge[string]) -> int32 { 0 }\nfn main() -> unit {\n    let e = Ge::Gn;\n    let d: dyn Tr1 = e;\n    let _ = string_println(int32_to_string(Tr1::m(d, 1) + keep(e)));\n    ()\n}\n", expect_any: &["does not implement", "Cannot convert", "No instance"] },
     Negative { name: "other-trait-on-dyn", src: "fn main() -> unit {\n    let s = St { v: 1 };\n    let d: dyn Tr1 = s;\n    let _ = string_println(int32_to_string(Tr2::m(d, 1)));\n    ()\n}\n", expect_any: &["No instance"] },
     Negative { name: "concrete-call-without-impl", src: "fn main() -> unit {\n    let o = Other { v: 1 };\n    let _ = string_println(int32_to_string(Tr1::m(o, 1)));\n    ()\n}\n", expect_any: &["No instance"] },
     Negative { name: "generic-call-without-impl", src: "fn g[T: Tr1](t: T) -> int32 { t.m(1) }\nfn main() -> unit {\n    let o = Other { v: 1 };\n    let _ = string_println(int32_to_string(g(o)));\n    ()\n}\n", expect_any: &["No instance", "does not implement", "not satisfied", "bound"] },
@@ -492,7 +501,7 @@ fn run(ctx: &mut Ctx) {
         println!("replay: the replay file stores the full source and both outputs");
         return;
     }
-    let n = tier.pick(64u64, 2_400u64) / ctx.nshards as u64 + 1;
+    let n = tier.pickn(64u64, 2_400u64) / ctx.nshards as u64 + 1;
     for j in 0..n {
         let mut rng = Rng::keyed(seed, "c17", ctx.shard as u64, j);
         // 3 receiver types per program; the first programs walk through all types
@@ -570,7 +579,7 @@ fn run(ctx: &mut Ctx) {
     // receivers whose type, trait and impls live in an imported package
     {
         let scratch = crate::util::scratch_base();
-        let nf = tier.pick(16u64, 320u64) / ctx.nshards as u64 + 1;
+        let nf = tier.pickn(16u64, 320u64) / ctx.nshards as u64 + 1;
         for j in 0..nf {
             let mut rng = Rng::keyed(seed, "c17-foreign", ctx.shard as u64, j);
             let label = format!("foreign/{}/{}", ctx.shard, j);
